@@ -242,3 +242,32 @@ def sym_pool(E, tag, keys, neutron=True, absorbing=True, natural=True, density=F
         for k, a in zip(keys, atoms):
             data[k] = atom_data(a)
     return T, atoms, data
+
+
+class Snapshot:
+    """what the caller handed in, to be compared after the call: the library may read its arguments, not change them"""
+    def __init__(self, **objs):
+        self.items = []
+        for name, o in objs.items():
+            if isinstance(o, np.ndarray):
+                self.items.append((name, o, ('array', o.copy())))
+            elif isinstance(o, (list, tuple)) and all(hasattr(x, 'structure') for x in o):
+                for i, x in enumerate(o):
+                    self.items.append(('%s[%d]' % (name, i), x, ('formula', (x.structure, x.density, x.name))))
+            elif hasattr(o, 'structure'):
+                self.items.append((name, o, ('formula', (o.structure, o.density, o.name))))
+            elif isinstance(o, list):
+                self.items.append((name, o, ('list', list(o))))
+
+    def check(self, E, prefix):
+        for name, o, (kind, was) in self.items:
+            if kind == 'array':
+                same = o.shape == was.shape and all(a is b or (not isinstance(a, SymReal) and not isinstance(b, SymReal) and a == b)
+                                                    for a, b in zip(o.flat, was.flat))
+                E.fact('%s.argument_unchanged[%s]' % (prefix, name), same, note='%r -> %r' % (was.tolist()[:4], o.tolist()[:4]))
+            elif kind == 'list':
+                E.fact('%s.argument_unchanged[%s]' % (prefix, name), len(o) == len(was) and all(a is b for a, b in zip(o, was)))
+            else:
+                st, de, na = was
+                same = o.structure is st and o.name is na and (o.density is de or (de is not None and o.density is not None and not isinstance(de, SymReal) and o.density == de))
+                E.fact('%s.argument_unchanged[%s]' % (prefix, name), same, note='%r %r' % (o.structure is st, o.density))
